@@ -12,8 +12,8 @@ ASSUMPTIONS = ["before/after comparison uses only the library's accessors and wi
 NSHARDS = {"quick": 32, "thorough": 64}
 BUDGET_S = {"quick": 200, "thorough": 1800}
 MIN_HITS = {
-    "quick": {"tx": 1500, "coinbase_tx": 100, "ext_satoshis": 800, "ext_locking": 800, "sat_2^64-1": 50, "txin": 1500, "conditional": 300, "empty_pushdata": 100},
-    "thorough": {"tx": 40000, "coinbase_tx": 3000, "ext_satoshis": 20000, "ext_locking": 20000, "sat_2^64-1": 1500, "txin": 40000, "conditional": 8000, "empty_pushdata": 2500},
+    'quick': {"tx": 1500, "coinbase_tx": 100, "ext_satoshis": 800, "ext_locking": 800, "sat_2^64-1": 50, "txin": 1500, "conditional": 300, "empty_pushdata": 100},
+    'thorough': {"tx": 115200, "coinbase_tx": 17504, "ext_satoshis": 154718, "ext_locking": 135599, "sat_2^64-1": 10357, "txin": 276223, "conditional": 181473, "empty_pushdata": 65158},
 }
 SATS = [0, 1, 2**53, 2**53 + 1, 2**63 - 1, 2**63, 2**64 - 2, 2**64 - 1, 0x0102030405060708]
 
@@ -21,7 +21,7 @@ SATS = [0, 1, 2**53, 2**53 + 1, 2**63 - 1, 2**63, 2**64 - 2, 2**64 - 1, 0x010203
 def cases(ctx):
     r = ctx.rnd
     t = ctx.tier == "thorough"
-    for i in range(3000 if t else 50):
+    for i in range(10000 if t else 50):
         tx = gen.gen_tx(r, r.choice([1, 1, 2, 3, 5]), r.choice([0, 1, 2, 4]), coinbase=(r.random() < 0.15), script_kw={"minimal": r.random() < 0.4, "depth": r.choice([1, 3, 5]), "n_tokens": r.choice([0, 1, 3, 8, 20]), "push_lens": [0, 0, 1, 2, 20, 75, 76, 255, 256, 300]})
         ext = []
         for _ in tx["ins"]:
